@@ -366,8 +366,14 @@ def binop(it, op, a, b):
             return mk_int(A / B) if isinstance(op, ast.FloorDiv) else mk_int(A % B)
         return mk_int((-A) / (-B)) if isinstance(op, ast.FloorDiv) else mk_int(-((-A) % (-B)))
     if isinstance(op, ast.Pow):
-        if isinstance(a, int) and a == 2:
+        if isinstance(a, int) and a == 2 and getattr(it, "pow_uf", False):
             return pow2(it, b)
+        if isinstance(a, int) and isinstance(b, SInt):
+            # small non-negative exponent: case split (forks), exact
+            for k in range(0, 65):
+                if it.decide(B == k):
+                    return a ** k
+            raise Unsupported("integer power with exponent outside 0..64")
         if isinstance(b, int) and b >= 0:
             r = z3.IntVal(1)
             for _ in range(b):
